@@ -197,7 +197,8 @@ pub fn run_sign(scn: &Scenario, ctx: &mut Ctx) {
                 let (sk, _) = keys::signing(sch, id);
                 let meta = st.arg(2) % 3 == 0;
                 let md = if meta { Some(SignatureMetadata::new().with_assertion(known_values::NOTE, format!("m{}", st.arg(2) % 7)).with_assertion("seq", st.arg(2) % 11)) } else { None };
-                match guarded(|| s.env.add_signature_opt(&sk, keys::sig_options(sch), md)) {
+                let plain_call = !meta && !keys::is_ssh(sch) && st.arg(2) % 2 == 1;
+                match guarded(|| if plain_call { s.env.add_signature(&sk) } else { s.env.add_signature_opt(&sk, keys::sig_options(sch), md) }) {
                     Ok(e) => {
                         s.env = e;
                         let subj_digest = *s.env.subject().digest().data();
@@ -581,6 +582,15 @@ pub fn run_sign(scn: &Scenario, ctx: &mut Ctx) {
                     Ok(Err(e)) => ctx.violate("C09.threshold", format!("has_signatures_from failed: {}", e)),
                     Err(p) => ctx.violate_sig("C16.no-panic", format!("has_signatures_from panicked: {}", p), p),
                 }
+                // the same without a threshold, in the form that returns the envelope
+                match guarded(|| env.verify_signatures_from(&refs).is_ok()) {
+                    Ok(ok) => {
+                        if ok != (count == n) {
+                            ctx.violate("C09.threshold", format!("no threshold given: {} of {} listed keys signed but verify_signatures_from {}", count, n, if ok { "succeeded" } else { "failed" }));
+                        }
+                    }
+                    Err(p) => ctx.violate_sig("C16.no-panic", format!("verify_signatures_from panicked: {}", p), p),
+                }
                 ctx.t(&format!("S.Threshold n={} count={}", n, count));
             }
             "S.Metadata" => {
@@ -616,6 +626,17 @@ pub fn run_sign(scn: &Scenario, ctx: &mut Ctx) {
                             }
                         }
                         Err(p) => ctx.violate_sig("C16.no-panic", format!("verify_signature_from_returning_metadata panicked: {}", p), p),
+                    }
+                    // the Option-returning form agrees with it
+                    if let (Ok(Ok(opt)), Ok(res)) = (guarded(|| env.has_signature_from_returning_metadata(&pk)), guarded(|| env.verify_signature_from_returning_metadata(&pk))) {
+                        let same = match (&opt, &res) {
+                            (Some(a), Ok(b)) => ident(a, b),
+                            (None, Err(_)) => true,
+                            _ => false,
+                        };
+                        if !same {
+                            ctx.violate("C09.metadata", format!("has_signature_from_returning_metadata and verify_signature_from_returning_metadata disagree for ({},{})", sch, id));
+                        }
                     }
                 }
                 ctx.t("S.Metadata");
@@ -770,6 +791,26 @@ pub fn run_recip(scn: &Scenario, ctx: &mut Ctx) {
             "R.Subject" | "R.Whole" => {
                 let whole = op == "R.Whole";
                 // only an elided or already encrypted subject cannot be encrypted; a compressed one can
+                if !whole && matches!(om.subject().obsc(), Obsc::Encrypted(_)) && orig.subject().is_encrypted() {
+                    // a subject that is already encrypted (with a key the sender may not even hold): the call either
+                    // refuses, or returns something every listed recipient can open - never an envelope that lists
+                    // recipients none of whom can
+                    ctx.checked();
+                    match guarded(|| orig.encrypt_subject_to_recipients(&refs)) {
+                        Ok(Ok(enc)) => {
+                            for id in &listed {
+                                let (sk, _) = keys::encap(scheme_of(*id), *id);
+                                if !matches!(guarded(|| enc.decrypt_subject_to_recipient(&sk)), Ok(Ok(_))) {
+                                    ctx.violate("C10.listed", format!("encrypt_subject_to_recipients accepted an already encrypted subject, but listed recipient {} cannot open the result", id));
+                                    break;
+                                }
+                            }
+                        }
+                        Ok(Err(_)) => ctx.probe("already-encrypted-subject-refused"),
+                        Err(p) => ctx.violate_sig("C16.no-panic", format!("encrypt_subject_to_recipients panicked on an already encrypted subject: {}", p), p),
+                    }
+                    continue;
+                }
                 if !whole && matches!(om.subject().obsc(), Obsc::Elided | Obsc::Encrypted(_) | Obsc::Some) {
                     continue;
                 }
@@ -1463,7 +1504,15 @@ pub fn run_proof(scn: &Scenario, ctx: &mut Ctx) {
         if copy_mode == 1 {
             copy_check(ctx);
         }
-        let proof = match guarded(|| doc.proof_contains_set(&lib_t)) {
+        // one target: the single-target entry points are equivalent (used every other time)
+        let single: Option<bc_components::Digest> = if targets.len() == 1 && st.arg(3) % 2 == 1 { targets.iter().next().map(to_lib_digest) } else { None };
+        if single.is_some() {
+            ctx.probe("single-target-entry-points");
+        }
+        let proof = match guarded(|| match &single {
+            Some(t) => doc.proof_contains_target(t),
+            None => doc.proof_contains_set(&lib_t),
+        }) {
             Ok(p) => p,
             Err(p) => {
                 ctx.violate_sig("C16.no-panic", format!("proof_contains_set panicked: {}", p), p);
@@ -1494,7 +1543,10 @@ pub fn run_proof(scn: &Scenario, ctx: &mut Ctx) {
                     if digest_of(&delivered) != dm.digest() {
                         ctx.violate("C12.root", "a produced proof does not have the envelope's root digest".to_string());
                     }
-                    match guarded(|| verifier.confirm_contains_set(&lib_t, &delivered)) {
+                    match guarded(|| match &single {
+                        Some(t) => verifier.confirm_contains_target(t, &delivered),
+                        None => verifier.confirm_contains_set(&lib_t, &delivered),
+                    }) {
                         Ok(true) => {}
                         Ok(false) => ctx.violate("C12.complete", format!("a produced proof for {} present target(s) (nested={}) is not accepted by a verifier holding the root digest", targets.len(), nested)),
                         Err(p) => ctx.violate_sig("C16.no-panic", format!("confirm_contains_set panicked: {}", p), p),
@@ -1589,7 +1641,10 @@ pub fn run_proof(scn: &Scenario, ctx: &mut Ctx) {
                     Err(_) => continue,
                 };
                 let should = digest_of(&delivered) == dm.digest() && targets.iter().all(|t| visible.contains(t));
-                match guarded(|| verifier.confirm_contains_set(&lib_t, &delivered)) {
+                match guarded(|| match &single {
+                    Some(t) => verifier.confirm_contains_target(t, &delivered),
+                    None => verifier.confirm_contains_set(&lib_t, &delivered),
+                }) {
                     Ok(b) => {
                         if b && !should {
                             ctx.violate("C12.sound", format!("a verifier accepted a proof whose root digest differs or in which a target does not occur ({})", op));
